@@ -27,7 +27,7 @@ ASSUMPTIONS = [
 REQUIRED_CLASSES = ["nontrivial", "nothing_inserted", "single_node", "closed", "retracted_handles",
                     "repeated_node", "loop_piece", "deep(>=5_levels)", "lattice", "multi_piece", "hook",
                     "flatness_relative_to_piece", "tiny_scale", "gentle_bow", "midpoint_on_end_node",
-                    "points_as_tuples", "points_as_lists"]
+                    "points_as_tuples", "points_as_lists", "far_from_origin"]
 QUICK_SHARDS = 8
 THOROUGH_SHARDS = 16
 LINE_BUDGET = 3_000_000
@@ -105,7 +105,7 @@ def body(ctx, case):
     except BudgetExceeded:
         ctx.record(case, classes, True)
         ctx.fail("subdivideCubicPath(%r, %r) did not finish within %d executed lines (%d nodes so far)"
-                 % (nodes, flat, LINE_BUDGET, len(s_p)), case)
+                 % (nodes, flat, LINE_BUDGET, len(s_p)), case, expensive=True)
     except Exception as exc:  # pylint: disable=broad-except
         ctx.record(case, classes, True)
         ctx.fail("subdivideCubicPath(%r, %r) raised %s: %s" % (nodes, flat, type(exc).__name__, exc), case)
@@ -123,7 +123,10 @@ def body(ctx, case):
     if not all(math.isfinite(float(c)) for node in res for h in node for c in h):
         ctx.fail("%s produced non-finite coordinates" % what, case)
     orig = [[fpt(h) for h in node] for node in original]
-    tol = F(scale) / 10 ** 9
+    # "equal" control points: within 1e-9 of the drawing's size, or - for a drawing far from the origin, whose
+    # midpoints round at the magnitude of the coordinates - within 64 float steps of the largest coordinate
+    in_extent = max([abs(c) for node in orig for h in node for c in h] + [F(scale)])
+    tol = max(F(scale) / 10 ** 9, in_extent * F(1, 2 ** 46))        # 1e-9 of the size, or 64 float steps
     # (i) outer handles intact
     if res[0][0] != orig[0][0] or res[-1][2] != orig[-1][2]:
         ctx.record(case, classes, inserted > 0)
@@ -273,6 +276,12 @@ def cases(draw):
 def typed_cases(draw):
     case = draw(cases())
     case["tuples"] = draw(st.booleans())
+    if draw(st.integers(0, 4)) == 0:
+        # the same path far from the origin (a large sheet, other user units): translate by 2^10..2^30 of its scale
+        off = case["scale"] * 2.0 ** draw(st.integers(10, 30))
+        ox, oy = off * draw(st.sampled_from([1, -1, 1, 0])), off * draw(st.sampled_from([1, -1, 1]))
+        case["nodes"] = [[[h[0] + ox, h[1] + oy] for h in node] for node in case["nodes"]]
+        case["tags"] = sorted(set(case["tags"]) | {"far_from_origin"})
     return case
 
 
